@@ -144,9 +144,20 @@ Fixpoint corr_pers (rs : rsrc) (c : config) (p : pworld) (steps : list (bytes * 
     then corr_pers rs c p' steps' (k + 1) else k
   end.
 
+(* The harness gives the long-lived engine an explicit State (engine.WithState) so that it can
+   observe it.  ensureState's branch for an explicit state sets FLAG_LANG whenever a language is
+   CONFIGURED, also when the code does not resolve (the nil-state branch, modelled by fresh_state,
+   sets it only when it resolves).  The flag is consumed by the first instruction that runs. *)
+Definition long_init (c : config) : engine :=
+  let e := new_engine c None [] [] in
+  match c_lang c, s_lang (v_st (e_v e)) with
+  | _ :: _, None => eset_v e (vset_st (e_v e) (setf (v_st (e_v e)) FLAG_LANG))
+  | _, _ => e
+  end.
+
 Definition engine_corr_at (ec : ecase) : N * N :=
   let rs := app_rsrc (ec_app ec) in
-  (corr_long rs (ec_cfg ec) (new_engine (ec_cfg ec) None [] []) (ec_long ec) 1,
+  (corr_long rs (ec_cfg ec) (long_init (ec_cfg ec)) (ec_long ec) 1,
    corr_pers rs (ec_cfg ec) (mkPw None [] [] false) (ec_pers ec) 1).
 Definition engine_corr_ok (ec : ecase) : bool := let '(a, b) := engine_corr_at ec in (a =? 0) && (b =? 0).
 Definition engine_mismatches (cs : list ecase) : list N := bad_indices engine_corr_ok cs.
